@@ -10,12 +10,13 @@ sys.path.insert(0, os.path.join(HERE, "lib"))
 def claimed():
     """Every lib/props/cNN.py that defines MANIFEST = dict(text, note, tech, ref) is a claimed check."""
     out = {}
+    ready = set(open(os.path.join(HERE, "ready.txt")).read().split())   # checks reviewed and passing on the unchanged tree
     for f in sorted(os.listdir(os.path.join(HERE, "lib", "props"))):
         m = re.fullmatch(r"(c\d+)\.py", f)
         if not m:
             continue
         mod = importlib.import_module("props." + m.group(1))
-        if getattr(mod, "MANIFEST", None):
+        if getattr(mod, "MANIFEST", None) and m.group(1).upper() in ready:
             out[m.group(1).upper()] = mod.MANIFEST
     return out
 
